@@ -23,6 +23,7 @@ type Obligation struct {
 	Goal   string
 	Cover  bool // satisfiability check: expected sat
 	Reach  bool // reachability guard: anything but unsat is accepted
+	RawSMT string // complete hand-written query (expected unsat)
 	Static string // non-empty: decided without a solver: "ok" or failure reason
 	Pos    string
 	// results
@@ -93,6 +94,7 @@ type Engine struct {
 	counted  map[string]string
 	immArr   map[string]bool
 	rawDone  bool
+	rePat    map[string]string
 }
 
 func newEngine(w *World, top *ssa.Function) *Engine {
@@ -100,7 +102,7 @@ func newEngine(w *World, top *ssa.Function) *Engine {
 	e := &Engine{w: w, c: c, fl: w.fl, heapInfo: map[string]*heapInfo{}, top: top, topKey: fnKey(top), nameCnt: map[string]int{},
 		usedExtern: map[string]bool{}, usedDefault: map[string]bool{}, lockOld: map[string]*State{}, refBirth: map[string]int{},
 		fnById: map[string]*Val{}, guardCache: map[string][]string{}, wsCache: map[string]*WriteSet{}, usedContracts: map[string]bool{},
-		typeInvDone: map[string]bool{}, counted: map[string]string{}, immArr: map[string]bool{}}
+		typeInvDone: map[string]bool{}, counted: map[string]string{}, immArr: map[string]bool{}, rePat: map[string]string{}}
 	c.strTheory = w.fl.strTheory
 	return e
 }
